@@ -131,7 +131,7 @@ theorem SinkCfgSame.closed (s0 : BSt) : Closed (SinkCfgSame s0) where
     · exact h.of_sinks rfl
     · exact h
   ctxEmpty := fun _ _ h => h.of_sinks rfl
-  dropCtx := fun _ _ h _ _ => h.of_sinks rfl
+  dropCtx := fun _ _ h _ _ _ => h.of_sinks rfl
   prepRead := fun _ _ h => h.of_sinks rfl
   commitRead := fun _ _ h => h.of_sinks rfl
   readOne := fun s i st rest h _ _ => by
